@@ -15,7 +15,7 @@ MSG   = `{"t":"append",…} | {"t":"chunk",…} | {"t":"snap",…} | {"t":"apply
 OUT   = `["send",dst,MSG] | ["cb",id,code] | ["addNode",n] | ["dropNode",n]`
 
 ops: `send` (one destination), `sendall`, `check`, `submit`, `recv_apply`, `recv_response`,
-`leader_changed`, `fappend`, `restore`, `reapply`, `chunks`, `fold`, `admin_remove`, `rounds`
+`leader_changed`, `fappend`, `restore`, `reapply`, `chunks`, `fold`, `admin_remove`, `rounds`, `journalfold`, `capture`
 (`send` takes `"match": null | n` = the destination's matchIndex, repair D62).
 -/
 namespace Driver.NodeSend
@@ -315,6 +315,16 @@ def handle (j : Json) : Except String Json := do
     match reapplyAtCommit s (← jEntry (← fld j "entry")) with
     | .error e => return errJ e
     | .ok (s', o) => return Json.mkObj [("out", outsJ o), ("state", stateJ s')]
+  | "journalfold" =>
+    let s ← jState (← fld j "state")
+    match journalFold (← jBool (← fld j "dyn")) s with
+    | .error e => return errJ e
+    | .ok (s', o) => return Json.mkObj [("out", outsJ o), ("state", stateJ s')]
+  | "capture" =>
+    let s ← jState (← fld j "state")
+    match clusterAt s.self s.members s.log s.lastApplied with
+    | none => return errJ .indexError
+    | some c => return Json.mkObj [("cluster", nats (sortNats c))]
   | "rounds" =>
     let cfg ← jConf (← fld j "conf")
     let s ← jState (← fld j "state")
